@@ -413,18 +413,27 @@ impl<T> AtomicBucket<T> {
         let mut block_ptr = self.tail.load(Ordering::Acquire, guard);
         #[cfg(metrics_verif)]
         metrics::verif::point("bucket.clear.after_tail_load", 0);
-        if !block_ptr.is_null()
-            && self
-                .tail
-                .compare_exchange(
-                    block_ptr,
-                    Shared::null(),
-                    Ordering::SeqCst,
-                    Ordering::SeqCst,
-                    guard,
-                )
-                .is_ok()
-        {
+        // A writer may install a new tail block between our load and our swap. If so, try again with the new tail:
+        // giving up would leave every value written so far behind for this clear, even though they were all written
+        // before it began.
+        let mut detached = false;
+        while !block_ptr.is_null() {
+            match self.tail.compare_exchange(
+                block_ptr,
+                Shared::null(),
+                Ordering::SeqCst,
+                Ordering::SeqCst,
+                guard,
+            ) {
+                Ok(_) => {
+                    detached = true;
+                    break;
+                }
+                Err(e) => block_ptr = e.current,
+            }
+        }
+
+        if detached {
             #[cfg(metrics_verif)]
             metrics::verif::point("bucket.clear.after_detach", 0);
             let backoff = Backoff::new();
